@@ -47,7 +47,8 @@ func (e *otlpLogDec) Decode() error {
 					labels = append(labels, []string{k, v})
 				}
 				// Extract other log record fields
-				message := logRecord.Body.GetStringValue()
+				// a body of any kind (int, double, bool, bytes, array, kvlist), rendered like an attribute value
+				message := SanitizeValue(logRecord.Body)
 				timestamp := logRecord.TimeUnixNano
 				// Call onEntries with labels and other details
 				err := e.onEntries(
